@@ -91,21 +91,28 @@ func sliceUniqMap(s [][]byte) [][]byte {
 // public sharing polynomial at index 0.
 func Recover(suite suites.Suite, public *share.PubPoly, msg []byte, sigs [][]byte, t, n int) ([]byte, error) {
 	pubShares := make([]*share.PubShare, 0)
+	seen := make(map[int]struct{})
 	sigs = sliceUniqMap(sigs)
 	for _, sig := range sigs {
 		s := SigShare(sig)
 		i, err := s.Index()
-
 		if err != nil {
-			return nil, err
+			// a malformed entry must not prevent the valid ones from being used
+			continue
+		}
+		if _, ok := seen[i]; ok || i >= n {
+			// one share per member: another encoding of a collected share, or an
+			// index outside the group, must not take a threshold slot
+			continue
 		}
 		if err = bls.Verify(suite, public.Eval(i).V, msg, s.Value()); err != nil {
 			continue
 		}
 		point := suite.G1().Point()
 		if err := point.UnmarshalBinary(s.Value()); err != nil {
-			return nil, err
+			continue
 		}
+		seen[i] = struct{}{}
 		pubShares = append(pubShares, &share.PubShare{I: i, V: point})
 		if len(pubShares) >= t {
 			break
